@@ -5,6 +5,9 @@ import json, subprocess
 HOOK_COMMITS = []  # filled in as hook commits are made in /repo
 
 CHECKS = {
+ "C03": dict(cat="exploration", technique="runtime reference-model monitor: generated SELECT statements run through the real lexer/parser/planner/Execute and compared row by row with a naive nested-loop evaluator of the pattern",
+   text="Complete for the one-clause shape space in thorough (sampled to <=1 extraction in quick) and for all two-clause combinations of a reduced shape set in thorough; sampled random 2-4 clause patterns with bounds, several graphs and aliases; held on the statements generated, not on all programs.",
+   note="Trusted: the ~250-line reference evaluator (bq.Match/Solve) implementing DESIGN.md Appendix A, canonical cell projection; cases run in worker processes so an engine-goroutine panic is attributed.", ref="DESIGN.md §5 C03, Appendix A"),
  "C18": dict(cat="exploration", technique="runtime differential monitor: real Parser.Parse vs an independent interpreter of the exported grammar table (explicit end of input) on the kinds the real lexer emits; accessor-level meaning fingerprints on reused vs fresh parsers",
    text="Complete for all token sequences up to length 3 (quick) / 4 (thorough, 9.3 M) over the 55 token kinds; sampled grammar-derived sentences and single-token mutations; sampled statement histories on one Parser instance with accepted, truncated-at-every-token and token-replaced earlier statements.",
    note="Trusted: the reference recogniser (gram.Recognize) and the fingerprint's coverage of exported accessors; unrealisable kind sequences are skipped.", ref="DESIGN.md §5 C18"),
